@@ -45,7 +45,7 @@ ASSUMPTIONS = [
     'a 1-D error array given with a 2-D spectrum may be returned as (K,) or broadcast to every row',
 ]
 _Q = {'flux': 1500, 'flux2derr': 150, 'simple': 1000, 'native': 400}
-_T = {'flux': 6000, 'flux2derr': 500, 'simple': 4000, 'native': 1200}
+_T = {'flux': 4000, 'flux2derr': 300, 'simple': 2500, 'native': 800}
 BUDGET = {
     'quick': [dict(name='main', env={}, shards=8, cases=_Q),
               dict(name='model', env={'NUMBA_BOUNDSCHECK': '1'}, shards=1, cases={'model': 25})],
